@@ -1,10 +1,10 @@
 PROPERTY = "C03"
 LEVEL = "proof"
-LEAN_MODULES = ["CifModel.Props.C03", "CifModel.Props.C03Extra", "CifModel.Lemmas.ParserTop", "CifModel.Lemmas.ParserQuiet", "CifModel.Lemmas.ParserConsistent", "CifModel.Lemmas.ParserRect", "CifModel.Lemmas.ParserStore", "CifModel.Props.C03Store", "CifModel.Model.ParserTrace", "CifModel.Model.ParserStoreOps", "CifModel.Lemmas.ParserTrace", "CifModel.Lemmas.ParserValues", "CifModel.Lemmas.ParserStoreOps", "CifModel.Lemmas.ParserDetProd", "CifModel.Lemmas.ParserDetLex", "CifModel.Lemmas.ParserDet", "CifModel.Props.ReviewC03"]
+LEAN_MODULES = ["CifModel.Props.C03", "CifModel.Props.C03Extra", "CifModel.Lemmas.ParserTop", "CifModel.Lemmas.ParserQuiet", "CifModel.Lemmas.ParserConsistent", "CifModel.Lemmas.ParserRect", "CifModel.Lemmas.ParserStore", "CifModel.Props.C03Store", "CifModel.Model.ParserTrace", "CifModel.Model.ParserStoreOps", "CifModel.Lemmas.ParserTrace", "CifModel.Lemmas.ParserValues", "CifModel.Lemmas.ParserStoreOps", "CifModel.Lemmas.ParserTraceInv", "CifModel.Lemmas.ParserDetProd", "CifModel.Lemmas.ParserDetLex", "CifModel.Lemmas.ParserDet", "CifModel.Props.ReviewC03"]
 REQUIRED = ["CifModel.C03_total", "CifModel.C03_clamp", "CifModel.C03_report_site", "CifModel.C03_prefix_determinism", "CifModel.C03_result",
             "CifModel.C03_reported_partial", "CifModel.C03_reported", "CifModel.C03_reported_full", "CifModel.Model.Parser.parseInternal_die", "CifModel.C03_consistent_after", "CifModel.C03_consistent_after_fresh",
             "CifModel.C03_consistent_iff", "CifModel.C03_consistent_container", "CifModel.C03_packets_rectangular", "CifModel.C03_rectangular_iff", "CifModel.C03_rectangular_container", "CifModel.Model.Parser.parse_okR", "CifModel.Model.Parser.packetsLoop_presR",
-            "CifModel.C03_parser_trace", "CifModel.C03_store_ops_documented", "CifModel.C03_store_step_mkBlock", "CifModel.C03_parser_store_refines_partial",
+            "CifModel.C03_parser_trace", "CifModel.C03_store_ops_documented", "CifModel.C03_store_step_mkBlock", "CifModel.C03_parser_store_refines_partial", "CifModel.C03_consistent_after_every_call", "CifModel.C03_set_value_calls_documented", "CifModel.Model.Parser.trace_prefix_okR",
             "CifModel.Model.Parser.parseT_out", "CifModel.Model.Parser.parse_replay", "CifModel.Model.Parser.storeTrace_wf", "CifModel.Model.Parser.setValueC_spec", "CifModel.Model.Parser.addPkt_spec", "CifModel.Model.Parser.parse_ok", "CifModel.Model.Parser.updIn_ok",
             "CifModel.C03_die_is_first", "CifModel.C03_accept_all", "CifModel.C03_codes_nonzero",
             "CifModel.C03_fuel_suffices", "CifModel.C03_nofuel_only_from_callback", "CifModel.C03_callback_lines",
@@ -58,6 +58,9 @@ PARTIAL = [
     "target, also aborted): forgetting the trace gives Model.Parser.parse exactly and the target is the replay of the recorded calls "
     "(C03_parser_trace); the effect of a recorded set_value / add_packet / create_block / create_frame is the DOCUMENTED function of "
     "Spec/DataModel on consistent rectangular containers (C03_store_ops_documented — uses C03_packets_rectangular and uniqueness of names); "
+    "the target is consistent and rectangular after EVERY recorded call, not only at the end (C03_consistent_after_every_call: every prefix "
+    "of the trace; Lemmas/ParserTraceInv: the Hoare logic of the consistency proof once more for the instrumented productions), so every "
+    "cif_container_set_value of every parse IS the documented function in the state in which it is made (C03_set_value_calls_documented); "
     "block creation composes with the store model's createBlock (C03_store_step_mkBlock, via C04_refines_create_block).  NOT PROVED: "
     "C03_parser_store_refines_full (a def) — the recorded calls translated into a Store.Op history (Model/ParserStoreOps.storeOps) and run "
     "through Store.step from a new CIF all return CIF_OK and end in a store whose abstraction Store.abs IS the parser model's CIF.  It is "
@@ -67,7 +70,8 @@ PARTIAL = [
     "report, the anonymous block) are not expressible as Store.Op and are skipped there (about 430 per run).  What a proof "
     "needs: the lift of the container-local refinement lemmas of C04 (absLoops d cid) to the tree Store.abs at a path (save frames have "
     "unique parents), the transaction brackets of the API wrappers incl. set_value's add_scalar composition, and the handle tables of "
-    "Store.step; that the premises of C03_store_ops_documented hold at every intermediate state of a parse (only proved for the final state)",
+    "Store.step.  (For add_packet / create_block / create_frame the premises of C03_store_ops_documented — last loop and its width, code "
+    "not in use — hold at the call by the same invariants (ILR, the exists_ tests) but are not restated per call)",
     "family parse observes the store calls of the REAL parser (function-like macros around #include \"parser.c\" in harness/x_parse.c: "
     "calls that return CIF_OK) as six counters and as the SEQUENCE of calls with a digest of the name argument (length of the code / "
     "data name, number of loop names) and compares both with the model's trace on every request; values and container arguments are "
